@@ -283,10 +283,24 @@ impl Check for C05 {
                 }
             }
         }
+        u.extend(super::c05pair::units(tier == Tier::Thorough));
+        // one side's registry under real threads: the losing connection's handler exit against
+        // the registration of the other connection (loom, harness/lockx)
+        u.push(json!({"kind":"threads","tier":tier.as_str(),"subset":"pair"}));
         u
     }
 
     fn run_unit(&self, _tier: Tier, unit: &Value, out: &mut UnitResult) {
+        if unit["kind"] == "threads" {
+            super::c04::run_threads(unit, out);
+            return;
+        }
+        if unit["kind"] == "pair" {
+            let before = (out.states, out.transitions);
+            super::c05pair::run_unit(unit, out);
+            let _ = before;
+            return;
+        }
         let (_, _, _, _, bound, _) = params(unit);
         let u = unit.clone();
         explore_sim(
@@ -300,12 +314,17 @@ impl Check for C05 {
             move |sim| scenario(sim, u.clone()).boxed(),
             |o: &Obs, _p, _c| judge(o),
         );
-        out.states = out.evaluations;
-        out.transitions = out.counters.get("datagrams").copied().unwrap_or(0);
+        out.states += out.evaluations;
+        out.transitions += out.counters.get("datagrams").copied().unwrap_or(0);
     }
 
     fn replay(&self, replay: &Value) -> String {
         let unit = replay["unit"].clone();
+        if unit["kind"] == "pair" {
+            let mut out = UnitResult::default();
+            super::c05pair::run_unit(&unit, &mut out);
+            return format!("unit {unit}\nviolations: {:?}\nclasses: {:?}", out.violations.iter().map(|v| (&v.key, &v.message)).collect::<Vec<_>>(), out.classes);
+        }
         let choices: Vec<u32> = replay["choices"]
             .as_array()
             .map(|a| a.iter().map(|x| x.as_u64().unwrap() as u32).collect())
@@ -336,6 +355,10 @@ impl Check for C05 {
             .filter(|k| k.starts_with("ca=true cb=true"))
             .count();
         m.insert("classes_with_both_dials_ok".into(), json!(both_ok));
+        let pair_paths = total.counters.get("pair_paths_to_quiescence").copied().unwrap_or(0);
+        if pair_paths == 0 && total.violations.is_empty() {
+            total.machinery_errors.push("vacuous exploration: the pair model reached no quiescent end state".into());
+        }
         if both_ok < 2 {
             total.machinery_errors.push(format!(
                 "vacuous exploration: only {both_ok} outcome classes in which both dials completed"
